@@ -48,9 +48,15 @@ type Opts struct {
 	RetryInvalid  bool          `json:"retry_invalid_range"`
 	Retry416      bool          `json:"retry_416"`
 	MemBudget     int           `json:"mem_budget"`
+
+	defaulted bool
 }
 
 func (o Opts) withDefaults() Opts {
+	if o.defaulted {
+		return o
+	}
+	o.defaulted = true
 	if o.Backend == "" {
 		o.Backend = "memory"
 	}
@@ -68,6 +74,9 @@ func (o Opts) withDefaults() Opts {
 	}
 	if o.MemBudget == 0 {
 		o.MemBudget = 50
+	}
+	if o.MemBudget < 0 {
+		o.MemBudget = 0 // -1 requests a real 0 %
 	}
 	return o
 }
